@@ -76,6 +76,8 @@ def run(prop, tier, seed):
             json.dump(seeds, open(sf, "w"))
             r = tlc_or_die("MC_Parser", env={"SEEDS_FILE": sf}, workers=8, timeout=3600)
             c.add_tlc("MC_Parser: machine outcome = Classify on every <= 1-edit neighbour of %d seed vectors x 3 constructors; strings emitted" % len(seeds), r)
+            r2 = tlc_or_die("MC_Pipeline", workers=8, timeout=3600)
+            c.add_tlc("MC_Pipeline: the constructor pipeline terminates, refines the grammar and carries the score functions' scores (bounded neighbourhood)", r2)
             from common import parse_gen
             neigh = [parse_gen(l)["s"] for l in r.lines if l.startswith("GEN ")]
             if len(neigh) < 1000:
